@@ -844,16 +844,25 @@ def r_raw2(E):
     pm = E.pm
     res = RuleResult("R-RAW2", "an operation combining raw arrays taken from two series (np.maximum / np.minimum) "
                                "requires both operands aligned on one index and expressed in one unit")
-    from .units import MagnitudeFlow, default_sink_of, module_dict_tables
+    from .units import MagnitudeFlow, default_sink_of, module_dict_tables, module_record_classes
     from ..astutil import callee_texts
     for mod, (rel, tree, src) in sorted(pm.modules.items()):
         tables = module_dict_tables(tree)
+        recs = module_record_classes(tree)
+        with_sinks = {f.name for f in ast.walk(tree) if isinstance(f, ast.FunctionDef)
+                      and any(default_sink_of(n) is not None for n in ast.walk(f))}
+        if not with_sinks:
+            continue
         for fn in [f for f in ast.walk(tree) if isinstance(f, ast.FunctionDef)]:
-            if not any(default_sink_of(n) is not None for n in ast.walk(fn)):
+            # functions that take bare numbers out of a series themselves, or call a method of their class that does
+            # (an alignment helper that hands the arrays back is evaluated in place, in its callers)
+            if fn.name not in with_sinks and not any(
+                    isinstance(n, ast.Call) and isinstance(n.func, ast.Attribute) and norm(n.func.value) == "self"
+                    and n.func.attr in with_sinks for n in ast.walk(fn)):
                 continue
             cls = getattr(fn, "_parent", None)
             mf = MagnitudeFlow(fn, default_sink_of, tables,
-                               pm.helper_finder(cls.name) if isinstance(cls, ast.ClassDef) else None)
+                               pm.helper_finder(cls.name) if isinstance(cls, ast.ClassDef) else None, recs)
             q = fn.name
             seen_calls = {id(n) for n, _ in mf.elementwise}
             bad_idx = {id(n): ix for n, ix in mf.misaligned}
